@@ -50,6 +50,32 @@ struct IsUserNodeValid
 };
 
 //---------------------------------------------------------------------------//
+//! Whether every node referenced by a definition is below the given ID
+struct AreOperandsBelow
+{
+    orangeinp::NodeId max_id;
+
+    bool operator()(orangeinp::True const&) const { return true; }
+    bool operator()(orangeinp::False const&) const { return true; }
+    bool operator()(orangeinp::Surface const&) const { return true; }
+    bool operator()(orangeinp::Aliased const& a) const
+    {
+        return a.node < this->max_id;
+    }
+    bool operator()(orangeinp::Negated const& n) const
+    {
+        return n.node < this->max_id;
+    }
+    bool operator()(orangeinp::Joined const& j) const
+    {
+        return std::all_of(
+            j.nodes.begin(), j.nodes.end(), [this](orangeinp::NodeId n) {
+                return n < this->max_id;
+            });
+    }
+};
+
+//---------------------------------------------------------------------------//
 }  // namespace
 
 //---------------------------------------------------------------------------//
@@ -138,9 +164,22 @@ auto CsgTree::exchange(NodeId node_id, Node&& n) -> Node
     }
     if (iter->second > node_id)
     {
+        // A node *higher* in the tree is equivalent to this one
+        if (!std::visit(AreOperandsBelow{node_id}, this->at(iter->second)))
+        {
+            // The higher node's *current* definition (it may have been
+            // simplified or aliased since its representation was recorded)
+            // refers to nodes at or above this one: moving it down would break
+            // the topological ordering. Store the representation itself here
+            // and let the higher node alias this one.
+            NodeId higher = iter->second;
+            iter->second = node_id;
+            this->at(higher) = orangeinp::Aliased{node_id};
+            return std::exchange(this->at(node_id), Node{iter->first});
+        }
+
         using std::swap;
-        // A node *higher* in the tree is equivalent to this one: swap the
-        // definitions so that the higher aliases the lower
+        // Swap the definitions so that the higher aliases the lower
         swap(this->at(iter->second), this->at(node_id));
         swap(iter->second, node_id);
     }
